@@ -64,5 +64,43 @@ def main():
     print(stats)
 
 
+HARMLESS_HEAD = """# Harmless changes and what the checks report
+
+40 changes by independent sub-agents that saw only the property text (two per property: at least one changes an
+observable detail the property leaves open — message wording, which of several valid answers, rng draws, chunking of
+reads/writes, enumeration order — the other is an internal refactoring). `verify.json`: the property tests of the
+change's own demo pass with and without it and the full suite passes with it. `result.json`: `./check <property> quick`
+with the patch applied. A harmless change may break a proof obligation or the model agreement (then the check searches
+for a failing input and reports `no-failing-input-found`); it must never be reported WITH a failing input.
+
+| change | property | confirmed | reported as | wall s | unspecified detail that changes |
+|---|---|---|---|---|---|
+"""
+
+
+def harmless():
+    root = os.path.join(VERIF, 'seeded_harmless')
+    rows, bad = [], 0
+    for n in sorted(os.listdir(root)):
+        d = os.path.join(root, n)
+        if not os.path.isdir(d) or not os.path.exists(os.path.join(d, 'result.json')):
+            continue
+        m = json.load(open(os.path.join(d, 'meta.json')))
+        v = json.load(open(os.path.join(d, 'verify.json')))
+        r = json.load(open(os.path.join(d, 'result.json')))
+        x = r[sorted(r.keys())[0]]
+        if x['exit'] == 0:
+            kind = 'no report (exit 0)'
+        elif all(l.rstrip().endswith('no-failing-input-found') for l in x['violation_lines']):
+            kind = 'broken obligation/correspondence only'
+        else:
+            kind = 'FALSE ALARM: failing input'; bad += 1
+        rows.append('| %s | %s | %s | %s | %s | %s |' % (n, m['property'], 'yes' if v.get('confirmed') else 'NO', kind, x.get('wall_s', ''),
+                    (m.get('changes_unspecified') or m.get('summary', ''))[:150].replace('|', '/').replace('\n', ' ')))
+    open(os.path.join(root, 'RESULTS.md'), 'w').write(HARMLESS_HEAD + '\n'.join(rows) + '\n')
+    print('harmless:', len(rows), 'changes,', bad, 'false alarms')
+
+
 if __name__ == '__main__':
     main()
+    harmless()
